@@ -86,6 +86,7 @@ PROPS = {
         "level": "exploration",
         "units": [
             U("c08", "TestRocksRestart", T(4, 16, 300, shrinktime="60s"), T(6, 160, 900, shrinktime="180s"), needs=["nodeexec"]),
+            U("c08", "TestFollowerBounce", T(1, 12, 400, shrinktime="60s"), T(3, 128, 1200, shrinktime="200s"), needs=["nodeexec"]),
             U("c08", "TestBPlusRestart", T(25, 8, 300), T(40, 160, 600)),
         ],
     },
